@@ -5,7 +5,7 @@ from . import maps
 
 ID = "C02"
 LEVEL = "exploration"
-BUDGET = {"quick": 1600, "thorough": 120000}
+BUDGET = {"quick": 1600, "thorough": 360000}
 RULE = ("case = op list (set/rem/get/mem/resize/assign/copy/clear/bulk fill+drain) over Table<K,V> for (Int,Int), "
         "(String,String), (Probe,Probe), (String,Int), (Int,String); keys from collision families (same home slot at every "
         "table size 5..1259, home slot = last slot, String keys colliding under MurmurHash64A), key arguments as stack "
